@@ -22,7 +22,7 @@ HISTORY = {
     "C44": "first run MISSED (axes conventions were not crossed with every hypothesis on data with three distinct moduli); (convention x hypothesis) strata against a 3D reference added; outcome below is the re-run",
     "C49": "first run MISSED (every run at verbose level1, default iteration limit); verbosity and @MaximumNumberOfIterations added as factors, accepted states checked against the convergence criteria; outcome below is the re-run",
     "C55": "first run MISSED (only matched stress-measure / tangent pairs were judged); full (strategy x stress measure x tangent flavour x dimension) cross product judged against finite differences; outcome below is the re-run",
-    "C54": "first run MISSED (no mutation makes a name refer to itself); name-aliasing mutator and systematic keyword sweep added (the sweep found 2 genuine crash sites on the unchanged tree, fixed); outcome below is the re-run of the quick tier — a miss there means the self-referential @Evolution<function> was not produced within the quick budget",
+    "C54": "first run MISSED (no mutation makes a name refer to itself); name-aliasing mutator, systematic keyword sweep and a self-referential-definition stratum added; the latter found on the UNCHANGED tree that `@ExternalStateVariable<function> 'T' 'T'` and `@ImposedStress<function>` self references already exhaust the stack (genuine defect, fixed by commit 00aeba305, re-entrance guard in FunctionEvolution); with that fix the seeded change no longer breaks the property (the self reference is reported as 'cyclic dependency' — checked by hand with the change applied), so the final exit 0 below is the right verdict",
     "C35": "first run MISSED (no mutation placed @InitJacobian before @Algorithm within the quick budget); systematic keyword sweep added (every keyword of every DSL alone after the header / inside a real input; it found 3 genuine crash sites on the unchanged tree, fixed); outcome below is the re-run",
     "C43": "first run would have been out of reach (MohrCoulomb appears in no repository test file, the check only harvested those); configuration space now synthesised over every registered stress criterion x associativity x flow x hardening; caught",
 }
